@@ -10,6 +10,7 @@ pub fn dispatch(f: &[String]) -> String {
         "pratt" => pratt(&f[1]),
         "type" => types(f),
         "call" => call(&f[1], &f[2], &f[3]),
+        "progk" => progk(&f[1], &f[2], &f[3]),
         "repl" => repl(&f[1], &f[2], &f[3..]),
         "reexec" => reexec(&f[1], &f[2], &f[3]),
         other => format!("(bad-mode {other})"),
@@ -226,13 +227,14 @@ fn types(f: &[String]) -> String {
                 Err(e) => return e,
             };
             format!(
-                "(q {} (index_result {}) (element_type {}) (return_type {}) (params {}) (mut_element_type {}) (is_function {}) (is_tuple {}) (is_mut {}) (tuple_len {}) (min_tuple_len {}) (flatten_tuple {}) (iter_element {}) (tuple_element_at0 {}) (tuple_element_at1 {}) (field_type_a {}) (field_type_b {}) (has_field_a {}) (can_be_indexed {}) (is_iterator {}) (is_struct {}))",
+                "(q {} (index_result {}) (element_type {}) (return_type {}) (params {}) (mut_element_type {}) (mut_assign_type {}) (is_function {}) (is_tuple {}) (is_mut {}) (tuple_len {}) (min_tuple_len {}) (flatten_tuple {}) (iter_element {}) (tuple_element_at0 {}) (tuple_element_at1 {}) (field_type_a {}) (field_type_b {}) (has_field_a {}) (can_be_indexed {}) (is_iterator {}) (is_struct {}))",
                 canon::ty_ordered(&a),
                 opt_ty(a.index_result()),
                 opt_ty(a.element_type()),
                 opt_ty(a.return_type()),
                 opt_tys(a.params()),
                 opt_ty(a.mut_element_type()),
+                opt_ty(a.mut_assign_type()),
                 a.is_function(),
                 a.is_tuple(),
                 a.is_mut(),
@@ -249,6 +251,14 @@ fn types(f: &[String]) -> String {
                 a.is_iterator(),
                 a.is_struct()
             )
+        }
+        // the member order of THIS instance and its Display text
+        "show" => {
+            let a = match parse_ty(&f[2]) {
+                Ok(a) => a,
+                Err(e) => return e,
+            };
+            format!("(show {} {})", canon::ty_ordered(&a), canon::string(&a.to_string()))
         }
         // print K times, re-parse each print, compare with the original
         "rt" => {
@@ -436,4 +446,25 @@ fn reexec(flags: &str, setup: &str, src: &str) -> String {
     }
     let after = snapshot(&interp);
     format!("(reexec (before {}) (after {}) (runs {}))", before, after, runs.join(" "))
+}
+
+
+/// `progk <flags> <K> <src>`: parse + run the same text K times in this process (every parse builds
+/// fresh hash containers); prints the distinct canonical outcomes
+fn progk(flags: &str, k: &str, src: &str) -> String {
+    let k: usize = k.parse().unwrap_or(3);
+    let mut outs: Vec<String> = Vec::new();
+    for _ in 0..k {
+        let o = prog(flags, src);
+        // drop the monitor counters: they are not part of the outcome
+        let o = match o.find(" observed=") {
+            Some(i) => format!("{})", &o[..i]),
+            None => o,
+        };
+        if !outs.contains(&o) {
+            outs.push(o);
+        }
+    }
+    outs.sort();
+    format!("(progk {} {})", outs.len(), outs.join(" "))
 }
